@@ -23,13 +23,12 @@ Proof. destruct x; reflexivity. Qed.
 Lemma main_step_eol : forall n f last prev s ts, (f <= n)%nat ->
   lex kw2008 f last s = LexOk ts ->
   syn_clean_of ts = true ->
-  existsb bad_bs (merge ts) = false ->
   no_directive s = true -> has_psl_word s = false ->
   can_be_char last = can_char prev ->
   forall f', (length s < f')%nat ->
   option_map (map norm_eol) (split_from LangLexer.keywords_2008 f' prev s) = Some (syn_lexemes_of (merge ts)).
 Proof.
-  induction n as [|n IH]; intros f last prev s ts Lf LX CL NB ND NP INV f' Lf'.
+  induction n as [|n IH]; intros f last prev s ts Lf LX CL ND NP INV f' Lf'.
   { destruct f; [discriminate LX|lia]. }
   destruct f as [|f0]; [discriminate LX|].
   rewrite lex_S in LX.
@@ -60,9 +59,9 @@ Proof.
             option_map (map norm_eol)
               (match split_from LangLexer.keywords_2008 f'' a r' with Some ts0 => Some (t :: ts0) | None => None end)
             = Some (syn_lexemes_of (merge ((mkTok k t tr, None) :: ts')))).
-  { intros a INV' MG. rewrite MG in NB |- *. apply keep_tail in NB.
+  { intros a INV' MG. rewrite MG.
     rewrite (lexemes_cons _ _ _ _ _ EOFK). rewrite omap_cons.
-    rewrite (IH f0 (Some k) a r' ts' ltac:(lia) LX' CL' NB ND' NP' INV' f'' Lr'). reflexivity. }
+    rewrite (IH f0 (Some k) a r' ts' ltac:(lia) LX' CL' ND' NP' INV' f'' Lr'). reflexivity. }
   destruct (letter c) eqn:LC.
   - (* identifier, reserved word, or bit string literal without length *)
     rewrite (token_letter _ _ _ _ LC) in TK. destruct (span ident_char (c :: r0)) as [ti ri] eqn:SP.
@@ -78,14 +77,14 @@ Proof.
       assert (MG : merge ((mkTok KIdentifier t2 tr, None) :: (mkTok KStringLiteral (34 :: body) [], None) :: ts2)
                    = (mkTok KBitStringLiteral (t2 ++ 34 :: body) tr, None) :: merge ts2).
       { rewrite merge_cons. cbn [t_kind t_text t_trivia is_ident is_str no_trivia andb]. rewrite IB. reflexivity. }
-      rewrite MG in NB |- *. apply keep_tail in NB.
+      rewrite MG.
       rewrite lexemes_cons by reflexivity.
       rewrite <- QA in ND', NP'. change (34 :: body ++ rq) with ((34 :: body) ++ rq) in ND', NP'.
       apply no_dir_app in ND' as [_ NDq]. apply psl_suffix in NP'.
       rewrite omap_cons.
       assert (Lrq : (length rq < f'')%nat).
       { apply (f_equal (@length _)) in E. rewrite app_length in E. cbn [length] in *. unfold byte in *. lia. }
-      rewrite (IH f1 (Some KStringLiteral) AfterOther rq ts2 ltac:(lia) LX2 CL2 NB NDq NP' eq_refl f'' Lrq).
+      rewrite (IH f1 (Some KStringLiteral) AfterOther rq ts2 ltac:(lia) LX2 CL2 NDq NP' eq_refl f'' Lrq).
       rewrite <- app_assoc. reflexivity.
     + rewrite SP. apply KEEP; [apply ident_after_agree; assumption|].
       rewrite merge_cons. cbn [t_kind t_text t_trivia].
@@ -111,11 +110,11 @@ Proof.
       destruct HD as [t0 HD].
       (* when vhdl_syntax merges: the shape of the following two tokens *)
       assert (FIRE : forall i_ di s_ ds rest', ts' = (i_, di) :: (s_, ds) :: rest' ->
-                is_ident (t_kind i_) && no_trivia i_ && is_base_specifier (t_text i_) && is_str (t_kind s_) && no_trivia s_ = true ->
+                forallb is_intc t && is_ident (t_kind i_) && no_trivia i_ && is_base_specifier (t_text i_) && is_str (t_kind s_) && no_trivia s_ = true ->
                 exists r3, r' = t_text i_ ++ 34 :: r3 /\ is_base_specifier (t_text i_) = true).
       { intros i_ di s_ ds rest' -> C.
         apply andb_true_iff in C as [C C5]. apply andb_true_iff in C as [C C4]. apply andb_true_iff in C as [C C3].
-        apply andb_true_iff in C as [C1 C2]. apply no_trivia_nil in C2, C5.
+        apply andb_true_iff in C as [C1 C2]. apply andb_true_iff in C1 as [_ C1]. apply no_trivia_nil in C2, C5.
         destruct (lex_first _ _ _ _ _ _ _ LX' C2) as [[_ KE]|(c2 & r2 & k2 & t2 & r2' & e2 & f2 & -> & -> & TK2 & -> & LX2)].
         { rewrite KE in C1. discriminate C1. }
         cbn [t_kind t_text] in *.
@@ -145,8 +144,9 @@ Proof.
            assert (MG : merge ((mkTok KAbstractLiteral t tr, None) :: (mkTok KIdentifier (x2 :: t2') [], None)
                                :: (mkTok KStringLiteral (34 :: body) [], None) :: ts2)
                         = (mkTok KBitStringLiteral (t ++ (x2 :: t2') ++ 34 :: body) tr, None) :: merge ts2).
-           { rewrite merge_cons. cbn [t_kind t_text t_trivia is_ident is_abs is_str no_trivia andb]. rewrite IB. reflexivity. }
-           rewrite MG in NB |- *. apply keep_tail in NB.
+           { rewrite merge_cons. cbn [t_kind t_text t_trivia is_ident is_abs is_str no_trivia andb].
+             change (forallb is_intc t) with (forallb int_char t). rewrite FI, IB. reflexivity. }
+           rewrite MG.
            rewrite lexemes_cons by reflexivity.
            change (x2 :: t2' ++ 34 :: r2) with ((x2 :: t2') ++ 34 :: r2) in ND', NP'.
            apply no_dir_app in ND' as [_ ND']. apply psl_suffix in NP'.
@@ -155,31 +155,16 @@ Proof.
            rewrite omap_cons.
            assert (Lrq : (length rq < f'')%nat).
            { cbn [length] in *. rewrite app_length in Lr'. cbn [length] in Lr'. unfold byte in *. lia. }
-           rewrite (IH f2 (Some KStringLiteral) AfterOther rq ts2 ltac:(lia) LX2 CL2 NB NDq NP' eq_refl f'' Lrq).
+           rewrite (IH f2 (Some KStringLiteral) AfterOther rq ts2 ltac:(lia) LX2 CL2 NDq NP' eq_refl f'' Lrq).
            rewrite <- !app_assoc. reflexivity.
         -- apply KEEP; [reflexivity|]. rewrite merge_cons. cbn [t_kind t_text t_trivia is_ident is_abs andb].
            destruct ts' as [|[i_ di] [|[s_ ds] rest']]; try reflexivity.
-           destruct (is_ident (t_kind i_) && no_trivia i_ && is_base_specifier (t_text i_) && is_str (t_kind s_) && no_trivia s_) eqn:C;
+           destruct (forallb is_intc t && is_ident (t_kind i_) && no_trivia i_ && is_base_specifier (t_text i_) && is_str (t_kind s_) && no_trivia s_) eqn:C;
              [exfalso|reflexivity].
            destruct (FIRE _ _ _ _ _ eq_refl C) as (r3 & E & IB). rewrite E, (bs_len_of_ident _ _ IB) in BS. discriminate BS.
       * apply KEEP; [reflexivity|]. rewrite merge_cons. cbn [t_kind t_text t_trivia is_ident is_abs andb].
         destruct ts' as [|[i_ di] [|[s_ ds] rest']]; try reflexivity.
-        destruct (is_ident (t_kind i_) && no_trivia i_ && is_base_specifier (t_text i_) && is_str (t_kind s_) && no_trivia s_) eqn:C;
-          [exfalso|reflexivity].
-        (* the merged literal is not an integer: excluded by the hypothesis on bad_bs *)
-        rewrite merge_cons in NB. cbn [t_kind t_text t_trivia is_ident is_abs andb] in NB. rewrite C in NB.
-        cbn [existsb] in NB. apply orb_false_iff in NB as [NB _].
-        unfold bad_bs in NB. cbn [fst t_kind t_text] in NB.
-        destruct (abstract_literal_shape _ _ _ AL') as [[E _]|(x & more & E & IX & B1 & B2)].
-        { rewrite E in FI. destruct (span int_char (c :: r0)) as [i0 r0'] eqn:S0. cbn [fst] in FI.
-          rewrite (span_all _ _ _ _ S0) in FI. discriminate FI. }
-        destruct (span int_char (c :: r0)) as [i0 r0'] eqn:S0. cbn [fst] in E.
-        pose proof (span_all _ _ _ _ S0) as AI.
-        unfold nonint_prefix in NB. rewrite HD in NB. cbn [app] in NB. rewrite DC in NB. cbn [andb] in NB.
-        change (c :: t0 ++ t_text i_ ++ t_text s_) with ((c :: t0) ++ t_text i_ ++ t_text s_) in NB.
-        rewrite <- HD, E in NB. rewrite <- app_assoc in NB. cbn [app] in NB.
-        rewrite (span_app_stop int_char i0 (x :: more ++ t_text i_ ++ t_text s_) AI IX) in NB. cbn [snd] in NB.
-        rewrite (base_spec_len_none_head _ _ B1 B2) in NB. discriminate NB.
+        change (forallb is_intc t) with (forallb int_char t). rewrite FI. reflexivity.
     + (* delimiters, character and string literals, extended identifiers *)
       destruct (token_other _ prev _ _ _ _ _ LC DC (no_dir_head _ _ ND) TK INV) as (a & STEP & INV' & IA & II).
       rewrite STEP. apply KEEP; [exact INV'|].
@@ -189,12 +174,11 @@ Qed.
 
 
 Theorem syn_is_spec_eol : forall s,
-  clean_syn s = true -> no_directive s = true ->
-  has_nonint_bitstring s = false -> has_psl_word s = false ->
+  clean_syn s = true -> no_directive s = true -> has_psl_word s = false ->
   option_map (map norm_eol) (split_spec LangLexer.keywords_2008 s) = lexemes_syn s.
 Proof.
-  intros s CL ND NB NP.
-  unfold lexemes_syn, clean_syn, syn_result, has_nonint_bitstring, token_stream, synlex in *. unfold byte in *.
+  intros s CL ND NP.
+  unfold lexemes_syn, clean_syn, syn_result, token_stream, synlex in *. unfold byte in *.
   destruct (lex kw2008 (S (length s)) None s) as [ts| |] eqn:LX; try discriminate CL.
   cbn [option_map snd]. unfold split_spec.
   apply (main_step_eol (S (length s)) (S (length s)) None AfterOther s ts (le_n _) LX); try assumption.
@@ -207,6 +191,6 @@ Qed.
 Definition ex_syn_eol : list N :=
   [120; 32; 58; 61; 32; 34; 97; 13; 10; 98; 34; 32; 45; 45; 32; 99; 13; 40; 39; 13; 39; 41].
 Lemma ex_syn_eol_ok : clean_syn ex_syn_eol = true /\ no_directive ex_syn_eol = true
-  /\ has_nonint_bitstring ex_syn_eol = false /\ has_psl_word ex_syn_eol = false
+  /\ has_psl_word ex_syn_eol = false
   /\ lexemes_syn ex_syn_eol = Some [[120]; [58; 61]; [34; 97; 10; 98; 34]; [40]; [39; 10; 39]; [41]].
 Proof. vm_compute. repeat split. Qed.
